@@ -126,6 +126,14 @@ func runCheck(cfg *checkCfg, tier string, seed uint64, runsOverride int, writeEv
 		env = append(env, fmt.Sprintf("VERIF_WINDOW_TICKS=%d", window))
 	}
 
+	if tier == "thorough" {
+		// reduced determinism self-test: the same runs in fresh processes under two
+		// worker/GOMAXPROCS configurations must give identical event-log digests
+		if !miniSelftest(bin, cfg, seed, env) {
+			infra("determinism self-test failed: the engine does not replay exactly; no verdict")
+		}
+	}
+
 	exit := 0
 	reported := 0
 	knownHit := map[string]bool{}
@@ -555,4 +563,37 @@ func calibrateRaceWindow(bin string, env []string) uint64 {
 	}
 	fmt.Printf("canary: race on the shared Face reported; detector history window calibrated at %d ticks (%d shaping calls of distance)\n", window, last)
 	return window
+}
+
+func miniSelftest(bin string, cfg *checkCfg, seed uint64, env []string) bool {
+	type rec struct {
+		trace uint64
+		class string
+	}
+	var ref map[int]rec
+	for ci, c := range []struct {
+		workers int
+		procs   string
+	}{{2, "1"}, {8, "4"}} {
+		e := append(append([]string{}, env...), "GOMAXPROCS="+c.procs)
+		if cfg.Race {
+			e = env
+		}
+		cur := map[int]rec{}
+		o := &poolOpts{bin: bin, cfg: cfg, engine: cfg.Engine, seed: seed, tier: "thorough", from: 0, to: 24,
+			replayDir: filepath.Join(scratch(), fmt.Sprintf("selftest-%d", ci)), env: e, noShrink: true, workers: c.workers}
+		runPoolRecording(o, func(l *wline) { cur[l.Run] = rec{l.Outcome.Trace, l.Class} })
+		if ref == nil {
+			ref = cur
+			continue
+		}
+		for r, a := range ref {
+			if b, ok := cur[r]; ok && a != b {
+				fmt.Printf("self-test: run %d diverges between configurations: %+v vs %+v\n", r, a, b)
+				return false
+			}
+		}
+	}
+	fmt.Println("determinism self-test: 24 runs x 2 configurations identical")
+	return true
 }
